@@ -1,4 +1,5 @@
 """C13 — #[o2o(...)] alternative syntaxes generate the same code as bare attributes."""
+import re
 from ..pe import Evaluator, StructV, SymObj, Tag, Toks, explore, vkey
 from ..src import Inconclusive, calls, method_calls, render, walk, walk_with_parents
 from ..tables import ATTR, IMPL_FILES, instr_table, trait_attr_of
@@ -109,6 +110,28 @@ def r3(chk):
                 meths.add(m["method"])
         bad = sorted(meths & {"sort", "sort_by", "sort_by_key", "sort_unstable", "sort_unstable_by", "reverse", "rev", "dedup", "dedup_by", "dedup_by_key", "retain", "swap", "insert", "remove", "pop", "truncate", "drain", "skip", "take", "step_by", "filter", "skip_while", "take_while"})
         chk.expect("R3", f"{getter}/order", not bad, ATTR, fi.line, "instruction list is reordered or pruned before use", found=bad)
+        # the producing loop (the one around the parser calls) walks the attribute list itself, front to back, whatever the spelling
+        REORDER = {"partition", "chain", "rev", "filter", "filter_map", "skip", "take", "step_by", "skip_while", "take_while", "sort", "sort_by", "sort_by_key",
+                   "sort_unstable", "sort_unstable_by", "sort_by_cached_key", "reverse", "retain", "dedup", "rsplit", "split_at", "partition_in_place", "zip", "rotate_left", "rotate_right"}
+        prod = None
+        for node, parents in walk_with_parents(fi.body):
+            if node["k"] == "Call" and node["func"]["k"] == "Path" and node["func"]["segs"][-1] == parser:
+                fs = [p for p in parents if p["k"] == "For"]
+                if fs:
+                    prod = fs[0]
+                    break
+        if prod is None:
+            chk.inconc("R3", f"{getter}/source-order: the parser calls are not inside a for loop over the attributes any more")
+        else:
+            it = render(prod["iter"]).replace(" ", "")
+            names = {n["segs"][0] for n in walk(prod["iter"]) if n["k"] == "Path" and len(n["segs"]) == 1}
+            inits = [st.get("init") for st in walk(fi.body) if st["k"] == "Let" and st.get("init") is not None and any(q["k"] == "PIdent" and q["name"] in names for q in walk(st["pat"]))]
+            used = {m["method"] for e in [prod["iter"]] + inits for m in method_calls(e)} if True else set()
+            good = re.fullmatch(r"&?input(\.get_attrs\(\))?(\.iter\(\))?", it) is not None
+            bad_ = sorted(used & REORDER)
+            chk.shape("R3", f"{getter}/source-order", good, bool(bad_), ATTR, prod["line"],
+                      what="attributes are regrouped / filtered before being parsed: a bare attribute and the same instruction inside #[o2o(..)] are no longer handled at the same position",
+                      expected="for x in input.iter()", found={"iter": it[:100], "adaptors": bad_})
         # each parser call's error must propagate
         for node, parents in walk_with_parents(fi.body):
             if node["k"] == "Call" and node["func"]["k"] == "Path" and node["func"]["segs"][-1] == parser:
